@@ -59,11 +59,11 @@ def heavy_slot(mem_gb, n_slots=int(os.environ.get('VERIF_HEAVY_SLOTS', '3'))):
     import fcntl
     while True:
         for i in range(n_slots):
-            try:
-                f = open('/var/tmp/verif_heavy_%d.lock' % i, 'w'); fcntl.flock(f, fcntl.LOCK_EX | fcntl.LOCK_NB); return f
-            except OSError:
-                try: f.close()
-                except Exception: pass
+            try: f = open('/var/tmp/verif_heavy_%d.lock' % i, 'w')
+            except OSError: return None        # no writable lock directory: run without the limit rather than wait for ever
+            try: fcntl.flock(f, fcntl.LOCK_EX | fcntl.LOCK_NB); return f
+            except BlockingIOError: f.close()
+            except OSError: f.close(); return None
         time.sleep(2)
 class Undecided(Exception):
     """extraction break, tool failure, timeout: exit 2"""
